@@ -89,13 +89,22 @@ def gen(rng, tier):
         if realm is not None:
             toks.append("realm=" + hx(realm))
         nt = rng.choice([0, 0, 1, 1, 2, 3])
+        terms = [rand_term(rng, expect) for _ in range(nt)]
         if nt:
-            toks.append("terms=" + ";".join(hx(rand_term(rng, expect)) for _ in range(nt)))
+            toks.append("terms=" + ";".join(hx(t) for t in terms))
         ncn = rng.choice([0, 1, 1, 2])
         if ncn:
             toks.append("cn=" + ",".join(hx(variants(rng, rng.choice(expect))) for _ in range(ncn)))
         ns = rng.choice([None, 0, 1, 1, 2, 3, 5])
-        toks.append("san=" + ("none" if ns is None else ("." if ns == 0 else ",".join(rand_san(rng, expect, realm) for _ in range(ns)))))
+        sans = [] if not ns else [rand_san(rng, expect, realm) for _ in range(ns)]
+        # an otherName / rID term is about ONE object identifier: an entry that would satisfy it under another identifier must not
+        for t in terms:
+            if t.startswith(b"SubjectAltName:otherName:") and rng.random() < 0.6:
+                oid = t.split(b":")[2].decode()
+                other = rng.choice([o for o in [NAI] + OTHER_OIDS if o != oid])
+                sans.append("on:%s:utf8:%s" % (other if rng.random() < 0.7 else oid, hx(rng.choice(expect))))
+                ns = len(sans)
+        toks.append("san=" + ("none" if ns is None else ("." if not sans else ",".join(sans))))
         cs.append(Case("vcert " + " ".join(toks), kind="vcert", nsan=ns or 0, nterms=nt, realm=int(realm is not None)))
     return cs
 
